@@ -774,7 +774,9 @@ fn script(r: u32, k: u32, n: u32, z: u32, uc: bool, uf: bool, ud: bool, us: u8, 
         s.push_str(" + val(REGC) + val(REGD) + zrval(REGZ)");
     }
     if uf {
-        s.push_str(" + getclos() + viaf() + CF");
+        // (`main` reaches this closure only through `viaf`: the constant initialiser is the LAST call site of
+        // it that is generated; the further closures below are also called by `main` directly)
+        s.push_str(" + viaf() + viaf() + CF");
     }
     for (j, name) in ["sib0", "sib1", "sibz"].iter().enumerate() {
         if us & (1 << j) != 0 {
